@@ -39,18 +39,21 @@ structure EvE (s s' : State) (ext : List Ev) : Prop where
   nord : NoRd ext
   cons : ∀ u, closeCnt ext u + openN s' u = openN s u
   uids : (s'.mods.map (·.uid)).Sublist (s.mods.map (·.uid))
+  nuid : s'.nextUid = s.nextUid
+  fail : s'.fail = s.fail
+  wlist : s'.wlist = s.wlist
 
 def EvS (s s' : State) : Prop := ∃ ext, EvE s s' ext
 
 theorem EvE.refl (s : State) : EvE s s [] :=
-  ⟨by simp, NoRd.nil, fun u => by simp [closeCnt], List.Sublist.refl _⟩
+  ⟨by simp, NoRd.nil, fun u => by simp [closeCnt], List.Sublist.refl _, rfl, rfl, rfl⟩
 
 theorem EvS.refl (s : State) : EvS s s := ⟨[], EvE.refl s⟩
 
 theorem EvE.trans {a b c : State} {e1 e2 : List Ev} (h1 : EvE a b e1) (h2 : EvE b c e2) : EvE a c (e1 ++ e2) :=
   ⟨by rw [h2.out, h1.out, List.append_assoc], h1.nord.append h2.nord,
    fun u => by rw [closeCnt_append]; have := h1.cons u; have := h2.cons u; omega,
-   h2.uids.trans h1.uids⟩
+   h2.uids.trans h1.uids, h2.nuid.trans h1.nuid, h2.fail.trans h1.fail, h2.wlist.trans h1.wlist⟩
 
 theorem EvS.trans {a b c : State} (h1 : EvS a b) (h2 : EvS b c) : EvS a c := by
   obtain ⟨e1, h1⟩ := h1; obtain ⟨e2, h2⟩ := h2; exact ⟨e1 ++ e2, h1.trans h2⟩
@@ -63,24 +66,27 @@ theorem EvS.distinct {s s' : State} (h : EvS s s') (hd : UidsDistinct s) : UidsD
 
 /-- same log, same open sockets, same uids -/
 theorem evS_same {s s' : State} (ho : s'.out = s.out) (hop : ∀ v, isOpen s' v = isOpen s v)
-    (hu : s'.mods.map (·.uid) = s.mods.map (·.uid)) : EvS s s' :=
-  ⟨[], by simp [ho], NoRd.nil, fun u => by simp [closeCnt, openN, hop], by rw [hu]; exact List.Sublist.refl _⟩
+    (hu : s'.mods.map (·.uid) = s.mods.map (·.uid)) (hn : s'.nextUid = s.nextUid) (hf : s'.fail = s.fail)
+    (hw : s'.wlist = s.wlist) : EvS s s' :=
+  ⟨[], by simp [ho], NoRd.nil, fun u => by simp [closeCnt, openN, hop], by rw [hu]; exact List.Sublist.refl _, hn, hf, hw⟩
 
-theorem evS_mods {s s' : State} (ho : s'.out = s.out) (hm : s'.mods = s.mods) : EvS s s' :=
-  evS_same ho (fun v => by unfold isOpen; rw [hm]) (by rw [hm])
+theorem evS_mods {s s' : State} (ho : s'.out = s.out) (hm : s'.mods = s.mods) (hn : s'.nextUid = s.nextUid)
+    (hf : s'.fail = s.fail) (hw : s'.wlist = s.wlist) : EvS s s' :=
+  evS_same ho (fun v => by unfold isOpen; rw [hm]) (by rw [hm]) hn hf hw
 
 theorem evS_upd (s : State) (u : Nat) (f : Module → Module) (hu : ∀ m, (f m).uid = m.uid)
     (hc : ∀ m, (f m).closed = m.closed) : EvS s (s.upd u f) :=
-  evS_same rfl (fun v => isOpen_upd s u v f hu hc) (uids_upd s u f hu)
+  evS_same rfl (fun v => isOpen_upd s u v f hu hc) (uids_upd s u f hu) rfl rfl rfl
 
 theorem evS_crash (s : State) (w : String) : EvS s (s.crash w) := by
   unfold State.crash; split
   · exact EvS.refl s
-  · exact evS_mods rfl rfl
+  · exact evS_mods rfl rfl rfl rfl rfl
 
 /-- an event that is neither a read marker nor a close -/
 theorem evS_emit (s : State) (e : Ev) (h1 : isRd e = false) (h2 : ∀ u, isClose u e = false) : EvS s (s.emit e) :=
-  ⟨[e], rfl, NoRd.single h1, fun u => by rw [closeCnt_single, h2 u]; simp [openN, isOpen, State.emit], List.Sublist.refl _⟩
+  ⟨[e], rfl, NoRd.single h1, fun u => by rw [closeCnt_single, h2 u]; simp [openN, isOpen, State.emit], List.Sublist.refl _,
+   rfl, rfl, rfl⟩
 
 theorem sendRaw_ev (s : State) (u : Nat) (f : Frame) : EvS s (sendRaw s u f).1 := by
   unfold sendRaw
@@ -138,7 +144,10 @@ theorem removePrep_ev {s : State} (hd : UidsDistinct s) (u : Nat) (m : Module) (
     have hop : ∀ v, isOpen (s1.upd u (fun m => { m with closed := true, connected := false })) v = (v != u && isOpen s v) :=
       fun v => by rw [isOpen_closed_upd, hop1]
     have huid := uids_upd s1 u (fun m => { m with closed := true, connected := false }) (fun _ => rfl)
-    refine ⟨⟨[], by simp [State.upd, ho1], NoRd.nil, fun v => ?_, by rw [huid, hm1]; exact List.Sublist.refl _⟩, ?_⟩
+    have hn1 : s1.nextUid = s.nextUid := by subst hs1; rfl
+    have hf1 : s1.fail = s.fail := by subst hs1; rfl
+    have hw1 : s1.wlist = s.wlist := by subst hs1; rfl
+    refine ⟨⟨[], by simp [State.upd, ho1], NoRd.nil, fun v => ?_, by rw [huid, hm1]; exact List.Sublist.refl _, hn1, hf1, hw1⟩, ?_⟩
     · unfold openN; rw [hop]
       by_cases hvu : v = u
       · subst hvu; simp [closeCnt, hu0]
@@ -154,8 +163,11 @@ theorem removePrep_ev {s : State} (hd : UidsDistinct s) (u : Nat) (m : Module) (
       have : isOpen (s1.emit (.close u)) v = isOpen s1 v := rfl
       rw [this, hop1]
     have huid := uids_upd (s1.emit (.close u)) u (fun m => { m with closed := true, connected := false }) (fun _ => rfl)
+    have hn1 : s1.nextUid = s.nextUid := by subst hs1; rfl
+    have hf1 : s1.fail = s.fail := by subst hs1; rfl
+    have hw1 : s1.wlist = s.wlist := by subst hs1; rfl
     refine ⟨⟨[.close u], by simp [State.upd, State.emit, ho1], NoRd.single rfl, fun v => ?_,
-      by rw [huid]; show (s1.mods.map (·.uid)).Sublist _; rw [hm1]; exact List.Sublist.refl _⟩, ?_⟩
+      by rw [huid]; show (s1.mods.map (·.uid)).Sublist _; rw [hm1]; exact List.Sublist.refl _, hn1, hf1, hw1⟩, ?_⟩
     · unfold openN; rw [hop, closeCnt_single]
       by_cases hvu : v = u
       · subst hvu; simp [isClose, hu1]
@@ -166,7 +178,7 @@ theorem removePrep_ev {s : State} (hd : UidsDistinct s) (u : Nat) (m : Module) (
 
 theorem dropMod_ev (s : State) (u : Nat) (hc : isOpen s u = false) :
     EvS s { s with mods := s.mods.filter (·.uid != u) } := by
-  refine ⟨[], by simp, NoRd.nil, fun v => ?_, List.Sublist.map _ List.filter_sublist⟩
+  refine ⟨[], by simp, NoRd.nil, fun v => ?_, List.Sublist.map _ List.filter_sublist, rfl, rfl, rfl⟩
   have : isOpen { s with mods := s.mods.filter (·.uid != u) } v = isOpen s v := by
     by_cases hvu : v = u
     · subst hvu
@@ -270,7 +282,7 @@ theorem deliver_ev (f : Frame) : ∀ (rs : List Nat) {s : State}, UidsDistinct s
 end chain
 
 theorem countMsg_ev (cfg : Cfg) (s : State) (t : Int) : EvS s (countMsg cfg s t) := by
-  unfold countMsg; split <;> exact evS_mods rfl rfl
+  unfold countMsg; split <;> exact evS_mods rfl rfl rfl rfl rfl
 
 theorem forward_ev (cfg : Cfg) : ∀ n, EvOK (forward cfg n)
   | 0 => fun s g _ => by unfold forward; exact evS_crash _ _
@@ -364,17 +376,17 @@ theorem connect_ev {s : State} (hd : UidsDistinct s) (u : Nat) (h : Hdr) : EvS s
           split
           · exact hrefuse (h1.trans hl)
           · refine EvS.trans ((h1.trans hl).trans (evS_upd s2 u (fun m => { m with connected := true }) (fun _ => rfl) (fun _ => rfl))) ?_
-            exact evS_mods rfl rfl
+            exact evS_mods rfl rfl rfl rfl rfl
       · split
         · exact hrefuse h1
         · have h2 : EvS (s.upd u (setAll cfg s.buf h nm)) ({ (s.upd u (setAll cfg s.buf h nm)) with nextDyn := ‹Nat› } : State) :=
-            evS_mods rfl rfl
+            evS_mods rfl rfl rfl rfl rfl
           refine EvS.trans ((h1.trans h2).trans (evS_upd _ u (fun m => { m with modId := ‹Int›, connected := true }) (fun _ => rfl) (fun _ => rfl))) ?_
-          exact evS_mods rfl rfl
+          exact evS_mods rfl rfl rfl rfl rfl
 
 theorem evS_setSubs (s : State) (i : List (Int × List Nat)) (u : Nat) (l : List Int) :
     EvS s (({ s with idx := i } : State).setSubs u l) :=
-  (evS_mods (s := s) (s' := { s with idx := i }) rfl rfl).trans (evS_upd _ u _ (fun _ => rfl) (fun _ => rfl))
+  (evS_mods (s := s) (s' := { s with idx := i }) rfl rfl rfl rfl rfl).trans (evS_upd _ u _ (fun _ => rfl) (fun _ => rfl))
 
 theorem addSubCore_ev (s : State) (u : Nat) (t : Int) : EvS s (addSubCore cfg s u t) := by
   unfold addSubCore; dsimp only
